@@ -213,10 +213,21 @@ BadSkip(req) == \E i \in 1..Len(req.hdrs) : req.hdrs[i].skip /\ LowerSeq(req.hdr
 (*   FALSE        | none          | sized       | any           || Content-Length n  | Content-Length: n *)
 (*   FALSE        | none          | streamed    | any           || chunked           | TE: chunked       *)
 
-SizedKinds == {"bytes", "str", "buffer"}
+\* "buffer" = a buffer object with 1-byte items (bytearray, memoryview of bytes, array('B')); "widebuffer" = one whose items are
+\* wider than a byte or that has more than one dimension (array('H'), array('d'), memoryview.cast('H'), a 2-D memoryview):
+\* its len() counts ITEMS, the payload is its BYTES and Content-Length is its nbytes
+SizedKinds == {"bytes", "str", "buffer", "widebuffer"}
+WideItem == 2                       \* bytes per len()-unit of a wide buffer in the model
 TextKinds == {"str", "textfile", "strlist", "shorttextfile", "shorttextpipe"}
 EncChunk(req, c) == IF req.body.kind \in TextKinds THEN Utf8(c) ELSE c
 Payload(req) == Flatten([i \in 1..Len(req.body.chunks) |-> EncChunk(req, req.body.chunks[i])])
+\* named deviations of the framing arithmetic (BodyFraming.tla passes them in req.dev; a request without that field has none):
+\*   "LengthCountsItems"     Content-Length = len(memoryview(body)) instead of its nbytes
+\*   "ChunkSizeCountsItems"  the chunk-size line of a chunked wide buffer says len(chunk) instead of the number of bytes
+DevOf(req) == IF "dev" \in DOMAIN req THEN req.dev ELSE {}
+DeclaredLength(req) == IF req.body.kind = "widebuffer" /\ "LengthCountsItems" \in DevOf(req)
+                       THEN Len(Payload(req)) \div WideItem ELSE Len(Payload(req))
+ChunkSizeOf(req, c) == IF req.body.kind = "widebuffer" /\ "ChunkSizeCountsItems" \in DevOf(req) THEN Len(c) \div WideItem ELSE Len(c)
 MethodExpectsBody(m) == UpperSeq(m) \notin NoBodyMethods
 CallerFraming(req) == IF Mentions(req, CLKey) THEN "cl" ELSE IF Mentions(req, TEKey) THEN "te" ELSE "none"
 FramingMode(req) ==
@@ -230,12 +241,12 @@ FramingLines(req) ==
     IF req.chunked THEN (IF CallerFraming(req) = "te" THEN <<>> ELSE <<Line(TEDisp, Chunked)>>)
     ELSE IF CallerFraming(req) # "none" THEN <<>>
     ELSE CASE FramingMode(req) = "none" -> <<>>
-           [] FramingMode(req) = "cl" -> <<Line(CLDisp, DecDigits(Len(Payload(req))))>>
+           [] FramingMode(req) = "cl" -> <<Line(CLDisp, DecDigits(DeclaredLength(req)))>>
            [] FramingMode(req) = "chunked" -> <<Line(TEDisp, Chunked)>>
-ChunkFrame(c) == IF c = <<>> THEN <<>> ELSE HexDigitsOf(Len(c)) \o CRLF \o c \o CRLF      \* empty chunks are skipped
+ChunkFrame(req, c) == IF c = <<>> THEN <<>> ELSE HexDigitsOf(ChunkSizeOf(req, c)) \o CRLF \o c \o CRLF      \* empty chunks are skipped
 BodyBytes(req) ==
     IF FramingMode(req) = "chunked"
-    THEN Flatten([i \in 1..Len(req.body.chunks) |-> ChunkFrame(EncChunk(req, req.body.chunks[i]))]) \o <<"0">> \o CRLF \o CRLF
+    THEN Flatten([i \in 1..Len(req.body.chunks) |-> ChunkFrame(req, EncChunk(req, req.body.chunks[i]))]) \o <<"0">> \o CRLF \o CRLF
     ELSE Payload(req)
 
 -----------------------------------------------------------------------------
